@@ -5,7 +5,7 @@
 #ifndef LF_JUDGE_H
 #define LF_JUDGE_H
 
-#define LF_ALARM_SECONDS 10
+#define LF_ALARM_SECONDS 20
 #define LF_EXIT_HANG 94
 
 static char hang_kind[16], hang_mut[16];
@@ -128,12 +128,23 @@ static int same_double(double a, double b, double scale)
     return fabs(a - b) <= 1e-9 * scale + 1e-300;
 }
 
-static int data_same(vnadata_t *a, vnadata_t *b)
+/*
+ * data_same: same type, dimensions, frequency vector and z0 mode; cells and
+ * z0 values compared numerically only when the data are tame (all finite,
+ * no magnitude above 1e6): vnadata_save may legitimately route the data
+ * through a parameter conversion (Touchstone 1 normalises Z/Y/H/G through
+ * S), whose rounding grows with the dynamic range of the matrix.
+ * *judged tells whether the cells were compared.
+ */
+static int data_same(vnadata_t *a, vnadata_t *b, int *judged)
 {
     int rows = LIB(vnadata_get_rows(a)), cols = LIB(vnadata_get_columns(a));
     int nf = LIB(vnadata_get_frequencies(a));
     int ports = rows > cols ? rows : cols;
+    int tame = 1;
+    double scale = 1.0;
 
+    *judged = 0;
     if (LIB(vnadata_get_type(a)) != LIB(vnadata_get_type(b)) ||
 	    rows != LIB(vnadata_get_rows(b)) ||
 	    cols != LIB(vnadata_get_columns(b)) ||
@@ -141,7 +152,6 @@ static int data_same(vnadata_t *a, vnadata_t *b)
 	return 0;
     for (int f = 0; f < nf; ++f) {
 	double fa = LIB(vnadata_get_frequency(a, f));
-	double scale = 0.0;
 
 	if (!same_double(fa, LIB(vnadata_get_frequency(b, f)), fabs(fa)))
 	    return 0;
@@ -149,18 +159,10 @@ static int data_same(vnadata_t *a, vnadata_t *b)
 	    for (int c = 0; c < cols; ++c) {
 		double m = cabs(LIB(vnadata_get_cell(a, f, r, c)));
 
-		if (isfinite(m) && m > scale)
+		if (!isfinite(m) || m > 1e6)
+		    tame = 0;
+		else if (m > scale)
 		    scale = m;
-	    }
-	}
-	for (int r = 0; r < rows; ++r) {
-	    for (int c = 0; c < cols; ++c) {
-		double complex x = LIB(vnadata_get_cell(a, f, r, c));
-		double complex y = LIB(vnadata_get_cell(b, f, r, c));
-
-		if (!same_double(creal(x), creal(y), scale) ||
-			!same_double(cimag(x), cimag(y), scale))
-		    return 0;
 	    }
 	}
     }
@@ -171,9 +173,27 @@ static int data_same(vnadata_t *a, vnadata_t *b)
 	    double complex x = LIB(vnadata_get_fz0(a, f, p));
 	    double complex y = LIB(vnadata_get_fz0(b, f, p));
 
+	    if (!isfinite(cabs(x)) || cabs(x) > 1e6 || cabs(x) < 1e-6)
+		tame = 0;
 	    if (!same_double(creal(x), creal(y), cabs(x)) ||
 		    !same_double(cimag(x), cimag(y), cabs(x)))
 		return 0;
+	}
+    }
+    if (!tame)
+	return 1;
+    *judged = 1;
+    for (int f = 0; f < nf; ++f) {
+	for (int r = 0; r < rows; ++r) {
+	    for (int c = 0; c < cols; ++c) {
+		double complex x = LIB(vnadata_get_cell(a, f, r, c));
+		double complex y = LIB(vnadata_get_cell(b, f, r, c));
+
+		/* 1e-6 of the largest magnitude: >= 10^4 x the rounding of a
+		 * conversion round trip on tame data (observed <= 1e-11) */
+		if (cabs(x - y) > 1e-6 * scale)
+		    return 0;
+	    }
 	}
     }
     return 1;
@@ -205,7 +225,7 @@ static void judge_data(int kind, const buf_t *in, int prefill)
     if (rv == 0) {
 	int rows = LIB(vnadata_get_rows(v)), cols = LIB(vnadata_get_columns(v));
 	int nf = LIB(vnadata_get_frequencies(v));
-	int readable, resave = -1, reload = -1, same = -1;
+	int readable, resave = -1, reload = -1, same = -1, judged = 0;
 
 	vt_cb_reset();
 	readable = data_readable(v);
@@ -222,7 +242,7 @@ static void judge_data(int kind, const buf_t *in, int prefill)
 		v2 = LIB(vnadata_alloc(vt_errfn, NULL));
 		vt_cb_reset();
 		reload = v2 != NULL && LIB(vnadata_load(v2, path_out)) == 0;
-		same = reload ? data_same(v, v2) : 0;
+		same = reload ? data_same(v, v2, &judged) : 0;
 		LIBV(vnadata_free(v2));
 	    } else {
 		reload = 0;
@@ -231,9 +251,11 @@ static void judge_data(int kind, const buf_t *in, int prefill)
 	    unlink(path_out);
 	}
 	res_put(",\"o\":{\"type\":\"%s\",\"rows\":%d,\"cols\":%d,\"nf\":%d,"
-		"\"readable\":%d,\"resave\":%d,\"reload\":%d,\"same\":%d}",
+		"\"readable\":%d,\"resave\":%d,\"reload\":%d,\"same\":%d,"
+		"\"cellsJudged\":%d}",
 		ptype_name(LIB(vnadata_get_type(v))), rows, cols,
-		nf > 1000000 ? 1000000 : nf, readable, resave, reload, same);
+		nf > 1000000 ? 1000000 : nf, readable, resave, reload, same,
+		judged);
     } else {
 	/* the destination must still answer queries, accept a re-init and
 	 * be freed */
